@@ -201,6 +201,7 @@ func (w *worker) runWS(f []string) string {
 	// read until the connection ends
 	n, wfm, tr, lt, gs := 0, 1, 0, 0, "na"
 	cc, cu, rc := "none", 1, "na"
+	pe := "x" // the client library's complaint about a frame the server sent
 	hardStop := time.Now().Add(wsReadWindow)
 	for {
 		dl := time.Now().Add(wsIdleWindow)
@@ -229,6 +230,7 @@ func (w *worker) runWS(f []string) string {
 			case strings.Contains(err.Error(), "websocket:"):
 				// gorilla's protocol validation rejected a frame the SERVER sent
 				cc = "proto"
+				pe = common.HexS(err.Error())
 			default:
 				cc = "eof" // connection ended without a close frame
 			}
@@ -256,5 +258,5 @@ func (w *worker) runWS(f []string) string {
 		}
 	}
 	return finish(strings.Join([]string{"hs=101 hwf=1", kv("n", n), kv("wfm", wfm), kv("cc", cc), kv("cu", cu), kv("rc", rc),
-		kv("tr", tr), kv("lt", lt), kv("gs", gs), kv("ci", ci), kv("fj", firstJSONBad)}, " "))
+		kv("tr", tr), kv("lt", lt), kv("gs", gs), kv("ci", ci), kv("fj", firstJSONBad), kv("pe", pe)}, " "))
 }
